@@ -112,6 +112,7 @@ Q = [
     ['preamble', {'text': 'x', 'encoding': 'iso, ir=100'}],
 ]
 ALL = V2 + I + Q
+CORE = V2 + I[::3] + Q[::3]
 INVALID_KEYS = set(spec_key for spec_key in range(len(V2), len(V2) + len(I)))
 
 
@@ -362,14 +363,21 @@ def chunks(tier, seed):
 
     for a in range(len(ALL)):
         for b in range(len(ALL)):
-            out.append(('A', (a, b), la))
+            out.append(('A', (a, b), 3))
+
+    if la > 3:
+        # one step deeper over the valid variants and every third
+        # invalid / unwritable one
+        for a in range(len(CORE)):
+            for b in range(len(CORE)):
+                out.append(('C', (a, b), la))
 
     return out
 
 
 def run_chunk(chunk, st):
     which, head, maxlen = chunk
-    alphabet = V if which == 'V' else ALL
+    alphabet = {'V': V, 'A': ALL, 'C': CORE}[which]
     evals = 0
     nontrivial = 0
     sample = None
@@ -544,7 +552,10 @@ def checks():
                  'byte-identical, accepted ones append; at the end bytes == '
                  'reference serialisation of the accepted calls only; '
                  'non-trivial = a rejection followed by an acceptance',
-            bound={'quick': 'LV = 8, LA = 3', 'thorough': 'LV = 10, LA = 4'}),
+            bound={'quick': 'LV = 8, LA = 3',
+                   'thorough': 'LV = 10, LA = 3, and length 4 over the '
+                               'valid variants plus every third invalid '
+                               'one'}),
         EnumCheck(
             'constructor', ctor_chunks, run_ctor_chunk,
             rule='DiffXWriter(): 8 unsupported version values must be '
